@@ -472,7 +472,13 @@ impl RawAutomaton {
         let mut power_transitions = Vec::with_capacity(self.transitions.len());
         let mut final_states =
             FxHashSet::with_capacity_and_hasher(self.final_states.len(), FxBuildHasher);
-        let markers = Vec::from_iter(self.markers.clone());
+        // Completion adds the missing unmarked transitions, whether or not
+        // the automaton already has one (the empty language has none).
+        let mut marker_set = self.markers.clone();
+        if completion {
+            marker_set.insert(0);
+        }
+        let markers = Vec::from_iter(marker_set.clone());
 
         while let Some(power_state) = pending.pop() {
             if let Entry::Vacant(entry) = visited.entry(power_state.clone()) {
@@ -534,7 +540,7 @@ impl RawAutomaton {
             initial_state: 0,
             final_states,
             transitions,
-            markers: self.markers,
+            markers: marker_set,
         }
     }
 
